@@ -97,7 +97,8 @@ def shape_key(t):
     return (k,)
 
 
-def short_lived(terms, shard, nshards, acc, examine, passes=("forward", "backward")):
+def short_lived(terms, shard, nshards, acc, examine,
+                passes=("forward", "backward", "forward-lag", "backward-lag")):
     """Address-reuse pass.  The main passes keep a schema alive while the next one is built; here
     every schema is built, examined and dropped before the next one of the same shape (other
     parameters) is built, forwards and backwards, in one process - so that later objects reuse the
@@ -110,7 +111,9 @@ def short_lived(terms, shard, nshards, acc, examine, passes=("forward", "backwar
     block = [terms[i] for i in order[lo:hi]]
     freed = {}
     for direction in passes:
-        seq = block if direction == "forward" else list(reversed(block))
+        seq = block if direction.startswith("forward") else list(reversed(block))
+        lag = direction.endswith("lag")      # drop each schema one step later: other reuse distance
+        held = None
         for t in seq:
             s, _ = try_build(t)
             if s is None:
@@ -121,5 +124,8 @@ def short_lived(terms, shard, nshards, acc, examine, passes=("forward", "backwar
                 acc.count("address_reused_by_a_different_schema")
             examine(t, s)
             freed[ident] = repr(t)
+            if lag:
+                held, s = s, held
             del s
             gc.collect(0)
+        del held
